@@ -1013,6 +1013,9 @@ func generate(R *core.Rand, thorough bool, emit func(class string, nontrivial bo
 						picks = append(picks, recipe{vi, reorgs[R.Intn(4)], R.Intn(2), m.name, a})
 					}
 				}
+				if !thorough && m.name == "timenew" {
+					picks = append(picks, recipe{vi, "clock", R.Intn(2), m.name, a}) // the clock context is about this rule
+				}
 				for _, r := range picks {
 					if r.ctx == "tmpltip" && (m.name == "highhash" || (m.name == "bits" && (a == 0x1d00ffff || a == 0 || a == 0x20800001))) {
 						continue // template check and delivery differ by design on the hash comparison
